@@ -43,8 +43,8 @@ META = {
     "design_ref": "7/C66",
     "shards": {"quick": 4, "thorough": 16},
     "budget_s": {"quick": 60, "thorough": 420},
-    "min_evals": {"quick": 5000, "thorough": 200000},
-    "min_nontrivial": {"quick": 60, "thorough": 2000},
+    "min_evals": {"quick": 5000, "thorough": 50000},
+    "min_nontrivial": {"quick": 60, "thorough": 1000},
     "deciding": ["ctx.view", "ctx.global_restored", "ctx.graph_threads"],
     "rule": "case = one multi-agent history (kind, agent programs); distinct = fingerprint of the programs; non-trivial = at least one "
             "observation was made while ANOTHER agent provably had an open context holding an added rule (logical-clock overlap)",
@@ -768,7 +768,7 @@ def run(ctx):
     H = ctx.n(320, 24000)
     try:
         for j in range(H):
-            if j >= H // 3 and not ctx.more():
+            if j >= (H // 3 if ctx.quick else H // 12) and not ctx.more():
                 break
             hid = f"{ctx.shard}x{j}"
             ctx.case_index = ctx.shard * H + j
